@@ -1,10 +1,13 @@
 package mon
 
 import (
+	"math"
+
 	"github.com/paulmach/orb"
 	"github.com/paulmach/orb/planar"
 
 	"verif/internal/exact"
+	"verif/internal/gen"
 	"verif/internal/h"
 )
 
@@ -193,6 +196,73 @@ func init() {
 					if exact.Area2(ring).Sign() != 0 {
 						c.Nontrivial(hashP(ring))
 						c.Sample(map[string]interface{}{"ring": ring, "queries": len(pts)})
+					}
+				},
+			},
+			{
+				// rings with hundreds of vertices (size-dependent code paths); a few rotations instead of all
+				Name: "many-vertices", Count: h.Fixed(150, 15000), BudgetSec: 60,
+				Run: func(c *h.Ctx, idx uint64, r *h.Rand) {
+					n := c10sizes[r.Intn(len(c10sizes))]
+					if n > 1100 {
+						n = r.Range(60, 1100)
+					}
+					ox, oy := float64(r.Range(-64, 0)), float64(r.Range(-64, 0))
+					var ring []P
+					if r.Bool() {
+						ring = randRing(r, n, 64, ox, oy)
+					} else {
+						// star-shaped around the middle, half-step lattice
+						ring = make([]P, n)
+						for i := range ring {
+							a := 2 * math.Pi * (float64(i) + r.Uniform(0.1, 0.9)) / float64(n)
+							rad := r.Uniform(8, 30)
+							ring[i] = P{ox + 32 + math.Round(2*rad*math.Cos(a))/2, oy + 32 + math.Round(2*rad*math.Sin(a))/2}
+						}
+					}
+					var sp [][]P
+					add := func(v []P) { sp = append(sp, v, append(append([]P{}, v...), v[0])) }
+					add(ring)
+					for t := 0; t < 3; t++ {
+						k := 1 + r.Intn(n-1)
+						add(append(append([]P{}, ring[k:]...), ring[:k]...))
+					}
+					add(gen.Reversed(ring))
+					var pts []P
+					for i := 0; i < 30; i++ {
+						pts = append(pts, P{ox + float64(r.Range(-8, 264))/4, oy + float64(r.Range(-8, 264))/4})
+					}
+					for i := 0; i < 10; i++ {
+						a := r.Intn(n)
+						b := (a + 1) % n
+						pts = append(pts, ring[a], P{(ring[a][0] + ring[b][0]) / 2, (ring[a][1] + ring[b][1]) / 2})
+					}
+					for _, q := range pts {
+						in, on := exact.Locate(ring, q)
+						for si, v := range sp {
+							got := planar.RingContains(pToRing(v), orb.Point{q[0], q[1]})
+							c.Eval()
+							if got != (in || on) {
+								c.Fail("", "RingContains on a ring of many vertices disagrees with the exact even-odd/boundary answer", map[string]interface{}{"vertices": n, "spelling": si, "ring_hash": hashP(ring), "first": ring[:4], "point": q, "got": got, "exact_inside": in, "exact_on_boundary": on})
+								break
+							}
+						}
+						if got := planar.PolygonContains(orb.Polygon{pToRing(ring)}, orb.Point{q[0], q[1]}); got != (in || on) {
+							c.Fail("", "PolygonContains on a one-ring polygon of many vertices disagrees with the exact answer", map[string]interface{}{"vertices": n, "ring_hash": hashP(ring), "point": q, "got": got})
+						}
+						switch {
+						case on:
+							c.Count("boundary_queries", 1)
+						case in:
+							c.Count("inside_queries", 1)
+						default:
+							c.Count("outside_queries", 1)
+						}
+					}
+					c.Max("vertices in one ring", float64(n), nil)
+					if exact.Area2(ring).Sign() != 0 {
+						c.Nontrivial(hashP(ring))
+						c.Sample(map[string]interface{}{"vertices": n, "queries": len(pts)})
 					}
 				},
 			},
